@@ -19,7 +19,7 @@ RULE = ('(a) EXHAUSTIVE small universe at function level: two identifiers per tr
         'responder\'s configured order and the initiator\'s offer, KE group == chosen DH, INVALID_KE_PAYLOAD names exactly the chosen group, NO_PROPOSAL_CHOSEN '
         'and no NEWSA when there is no common suite, algorithms in NEWSA == negotiated; (d) TAMPERED RESPONSES from an independent responder with valid AUTH: '
         'extra / foreign / missing / duplicated transform, other key length, wrong protocol, for the IKE and the CHILD proposal; INVALID_KE_PAYLOAD '
-        'suggesting a never-offered group or carrying 0/1/3 octets. distinct = case signatures.')
+        'suggesting a never-offered group or carrying 0/1/3 octets; plus a sweep: INVALID_KE_PAYLOAD suggesting every group number 0..32 (and 255, 270, 1024, 65535) against three offers whose INTEG / PRF / ENCR ids collide numerically with group numbers, in IKE_SA_INIT, in an IKE_SA rekey and in a PFS CHILD_SA rekey: a retry iff the group was offered, and then in exactly that group. distinct = case signatures.')
 ASSUMPTIONS = ['an initiator may install only a response that holds exactly one transform of every type it offered, each taken from its offer; a response with two transforms of one type may be refused or accepted']
 SHARDS = {'quick': 8, 'thorough': 16}
 TIMEOUT = {'quick': 600, 'thorough': 3400}
@@ -229,6 +229,42 @@ def end_to_end(ck, rng, i):
         off_c = {'proto': proto, 'transforms': child_list(kw[ckey_i], proto, True)}
         want = negotiate.select(my_c, off_c)
         check_child_on_wire(ck, sim, sh, ini, res, want, 'create_child', None, my_c, off_c)
+    # IKE_SA rekeys started by either side, twice: the responder's choice is judged against the preference order AS WRITTEN in its configuration
+    # (the live configuration objects are shared by all IKE_SAs of a connection and outlive every negotiation) and the offer seen on the wire
+    for ini, res, key_r in ((a, b, 'ike_b'), (b, a, 'ike_a'), (a, b, 'ike_b'), (b, a, 'ike_a')):
+        est = [s_ for s_ in ini.ctl.ike_sas if s_.state.name == 'ESTABLISHED']
+        if not est:
+            break
+        seen = set(sh.exch)
+        est[0].rekey_ike_sa_at = sim.clock.t - 1
+        est[0].delete_ike_sa_at = sim.clock.t + 29
+        ini.step('tick')
+        sim.drain()
+        sh.feed(sim.wire)
+        for ek in [k for k in sh.exch if k not in seen]:
+            ex = sh.exch[ek]
+            rsa = next((p for p in ex.get('resp_inner') or [] if p['type'] == codec.SA), None)
+            qsa = next((p for p in ex['inner'] if p['type'] == codec.SA), None)
+            if ex.get('exch') != 36 or qsa is None or not qsa['proposals'] or qsa['proposals'][0]['proto'] != 1:
+                continue
+            offer = {'proto': 1, 'transforms': [(t['type'], t['id'], t['keylen']) for t in qsa['proposals'][0]['transforms']]}
+            want = negotiate.select({'proto': 1, 'transforms': ike_list(kw[key_r])}, offer)
+            if sorted(offer['transforms'], key=str) != sorted(ike_list(kw['ike_a' if key_r == 'ike_b' else 'ike_b']), key=str):
+                ck.violation('ike-rekey-offer-is-not-the-configured-proposal', {'offer': offer['transforms']}, sim.case)
+            nts = [p.get('ntype') for p in ex.get('resp_inner') or [] if p['type'] == codec.NOTIFY]
+            if rsa is None:
+                if 17 in nts:
+                    ck.count('e2e.rekey_invalid_ke')
+                    data = next(p['data'] for p in ex['resp_inner'] if p['type'] == codec.NOTIFY and p.get('ntype') == 17)
+                    if want is None or data != struct.pack('>H', want[4][1]):
+                        ck.violation('ike-rekey:invalid-ke-payload-does-not-name-the-chosen-group', {'data': data, 'want': want and want[4]}, sim.case)
+                continue
+            got = [(t['type'], t['id'], t['keylen']) for t in rsa['proposals'][0]['transforms']]
+            ck.count('e2e.ike_rekey_selection_compared')
+            ck.seen('e2e.rekey_choice_is_head', all(want and want[ty] == next(t for t in ike_list(kw[key_r]) if t[0] == ty) for ty in (1, 2, 3, 4)))
+            if want is None or sorted(got, key=str) != sorted(want.values(), key=str):
+                ck.violation('ike-rekey:responder-suite-differs-from-reference-selection-over-its-written-preference-order',
+                             {'got': got, 'want': want and list(want.values()), 'responder': res.name}, sim.case)
 
 
 def check_child_on_wire(ck, sim, sh, ini, res, want, kind, mid, my_c=None, off_c=None):
@@ -376,8 +412,83 @@ def tampered(ck, rng, vi):
         ck.violation(f'loop-died-on-tampered-response:{label}', {'exc': repr(died[0].exc)}, sim.case)
 
 
+KE_SWEEP_CONFS = [
+    # transform ids of the OTHER registries collide numerically with group numbers: INTEG sha512 = 14, sha256 = 12, sha1 = 2; PRF sha512 = 7, sha256 = 5; ENCR aes = 12
+    dict(ike_a={'encr': ['aes256'], 'integ': ['sha512'], 'prf': ['sha512'], 'dh': ['19', '20']}, child_a={'encr': ['aes256'], 'integ': ['sha512'], 'dh': ['19', '20']}),
+    dict(ike_a={'encr': ['aes128'], 'integ': ['sha1', 'sha256'], 'prf': ['sha1', 'sha256'], 'dh': ['20', '14', '21']}, child_a={'encr': ['aes128'], 'integ': ['sha1', 'sha256'], 'dh': ['21', '14']}),
+    dict(ike_a={'encr': ['aes256', 'aes128'], 'integ': ['sha256', 'sha512'], 'prf': ['sha256'], 'dh': ['21', '19']}, child_a={'encr': ['aes256'], 'integ': ['sha256', 'sha512'], 'dh': ['19', '21']}, ipsec_proto='ah'),
+]
+KE_SWEEP_GROUPS = list(range(0, 33)) + [255, 256 + 14, 1024, 65535]
+
+
+def invalid_ke_sweep(ck, rng, ci, where, g):
+    """INVALID_KE_PAYLOAD suggesting group g, for EVERY small g, against an offer; in IKE_SA_INIT (cleartext, anyone can send it), in an IKE_SA rekey and in a
+    PFS CHILD_SA exchange (from the independent responder holding valid keys). A retry is allowed iff g is one of the offered DH groups, and is then in group g."""
+    conf = KE_SWEEP_CONFS[ci]
+    offered = [int(x) for x in (conf['ike_a'] if where != 'child' else conf['child_a'])['dh']]
+    sim, a, b = S.make_pair(ck.seed * 17 + ci, **conf)
+    sim.case = {'family': 'invalid-ke-sweep', 'conf': ci, 'where': where, 'group': g}
+    died = []
+    sim.monitors.append(lambda s_, ep, rec: died.append(rec) if rec.died else None)
+    sim.acquire(a, 0)
+    req = sim.net.pop(0).data
+    data = struct.pack('>H', g)
+    note = [{'type': codec.NOTIFY, 'critical': False, 'proto': 0, 'spi': b'', 'ntype': 17, 'data': data}]
+    if where == 'init':
+        m = {'spi_i': req[:8], 'spi_r': b'\0' * 8, 'major': 2, 'minor': 0, 'exch': 34, 'flags': 0x20, 'mid': 0, 'payloads': note}
+        sim.inject(a, S.B4, S.A4, codec.encode_clear(m))
+        out = [codec.decode(d.data, strict_bodies=False)['payloads'] for d in sim.net]
+    else:
+        p = party.RefParty(S.B4, S.A4, rng)
+        sim.inject(a, S.B4, S.A4, p.respond_init(req))
+        areq = sim.net.pop(0).data
+        sim.inject(a, S.B4, S.A4, p.respond_auth(areq, c02.ID_B[0], c02.ID_B[1], 2, p.auth_psk(c02.PSK_B, *c02.ID_B)))
+        if not c02.established(a):
+            ck.count('ke_sweep.handshake_failed')
+            return
+        sa = a.ctl.ike_sas[0]
+        if where == 'rekey':
+            sa.rekey_ike_sa_at = sim.clock.t - 1
+            sa.delete_ike_sa_at = sim.clock.t + 29
+            a.step('tick')
+        else:
+            c = sa.child_sas[0]
+            sim.expire(a, bytes(c.inbound_spi), False, daddr=str(sa.my_addr), proto=51 if conf.get('ipsec_proto') == 'ah' else 50)
+        if not sim.net:
+            ck.count('ke_sweep.no_request')
+            return
+        creq = sim.net.pop(0).data
+        hdr, inner, _info = p.open(creq)
+        sim.inject(a, S.B4, S.A4, p.seal(36, hdr['mid'], note, True))
+        out = []
+        for d in sim.net:
+            try:
+                out.append(p.open(d.data)[1])
+            except ikecrypto.NotProtected:
+                pass
+    groups_sent = [x['group'] for pls in out for x in pls if x['type'] == codec.KE]
+    ck.count(f'ke_sweep.{where}')
+    ck.seen('ke_sweep.cases', (ci, where, g))
+    ck.nontrivial(('ke-sweep', ci, where, g, tuple(groups_sent)))
+    if g in offered and g != offered[0]:
+        ck.count('ke_sweep.must_retry')
+        if groups_sent != [g]:
+            ck.violation(f'invalid-ke-naming-an-offered-group-not-followed:{where}', {'suggested': g, 'offered': offered, 'sent': groups_sent}, sim.case)
+    elif g not in offered and groups_sent:
+        ck.violation(f'initiator-retried-with-a-group-it-never-offered:{where}', {'suggested': g, 'offered': offered, 'sent_groups': groups_sent}, sim.case)
+    if died:
+        ck.violation(f'loop-died-on-invalid-ke-payload:{where}', {'exc': repr(died[0].exc), 'suggested': g}, sim.case)
+
+
 def run(ck):
     rng = ck.rng('c11', ck.shard[0])
+    n = 5000
+    for ci in range(len(KE_SWEEP_CONFS)):
+        for where in ('init', 'rekey', 'child'):
+            for g in KE_SWEEP_GROUPS:
+                n += 1
+                if ck.mine(n):
+                    invalid_ke_sweep(ck, ck.rng('kesweep', n), ci, where, g)
     function_level(ck, rng)
     for i in range(240 if not ck.thorough() else 30000):
         if ck.mine(i):
@@ -398,6 +509,9 @@ def verdict(ck):
     ck.floor('multi-proposal selections', c['fn.multi_proposal'], 2000)
     ck.floor('end-to-end IKE selections compared', c['e2e.ike_selection_compared'], 100)
     ck.floor('end-to-end CHILD selections agreeing', c['e2e.child_selection_agrees'], 150)
+    ck.floor('INVALID_KE_PAYLOAD suggestions swept (configuration x exchange x group)', len(ck.sets['ke_sweep.cases']), 300)
+    ck.floor('suggestions of an offered group that must be followed', c['ke_sweep.must_retry'], 10)
+    ck.floor('IKE_SA rekey selections compared', c['e2e.ike_rekey_selection_compared'], 150)
     ck.floor('INVALID_KE_PAYLOAD replies seen', c['e2e.invalid_ke_seen'] + c['e2e.child_invalid_ke'], 20)
     ck.floor('NO_PROPOSAL_CHOSEN outcomes seen', c['e2e.no_proposal_chosen_seen'] + c['e2e.child_no_proposal_chosen'], 10)
     ck.floor('tampered-response variants', len(ck.sets['tamper.labels']) + c['tamper.invalid_ke'], 28)
